@@ -199,8 +199,9 @@ class ShaderSpec:
                          tail + ["}"])
 
     # ------------------------------------------------------------------ ground truth
-    def reach(self):
-        """name -> set of globals touched transitively (functions and entries)."""
+    def reach(self, naga_view=False):
+        """name -> set of globals touched transitively (functions and entries).  naga_view: as
+        naga's usage analysis sees it (an address that is taken and never used is no use)."""
         direct = {}
         calls = {}
         for f in self.funcs + self.entries:
@@ -208,6 +209,8 @@ class ShaderSpec:
             calls[f.name] = set()
             for a in f.actions:
                 if a.what == "access":
+                    if naga_view and a.form == "addr_only":
+                        continue
                     direct[f.name].update(a.glob)
                 else:
                     calls[f.name].add(a.callee)
@@ -429,9 +432,16 @@ def buffer_forms(g, structs, prefer=None):
             out.append(("atomic_rmw", "f32(atomicAdd(&%s, %s(1)))" % (lv, kind),
                         "atomicMax(&%s, %s(2));" % (lv, kind)))
             out.append(("atomic_store", None, "atomicStore(&%s, %s(3));" % (lv, kind)))
+            out.append(("atomic_cas", None, "{ let cas_r = atomicCompareExchangeWeak(&%s, %s(1), "
+                        "%s(2)); }" % (lv, kind, kind)))
     else:
         cast = lv if kind == "f32" else "f32(%s)" % lv
         out.append(("load", cast, None))
+        out.append(("ptr_deref", "f32(*(&%s))" % lv, None))
+        if g.kind in ("buffer", "push"):
+            # the address is taken and never used: still a static access by the WGSL rules
+            # (naga's usage analysis does not count it; see reach(naga_view=True))
+            out.append(("addr_only", None, "{ let unused_ptr = &%s; }" % lv))
         if writable:
             one = {"f32": "1.0", "i32": "1i", "u32": "1u", "f64": "1.0lf", "bool": "true"}[kind]
             out.append(("store", None, "%s = %s;" % (lv, one)))
@@ -476,6 +486,8 @@ def texture_forms(g):
     dims = "f32(textureDimensions(%s)%s)" % (n, "" if d == "1d" else ".x")
     out.append(("dims", dims, None))
     arr = ", 0" if d in ("2d_array",) else ""
+    if d in ("2d_array", "cube_array") and t["cls"] in ("sampled", "depth", "storage"):
+        out.append(("numlayers", "f32(textureNumLayers(%s))" % n, None))
     if t["cls"] == "sampled":
         out.append(("numlevels", "f32(textureNumLevels(%s))" % n, None))
         if d in ICOORD:
@@ -502,7 +514,7 @@ def texture_forms(g):
     return out
 
 
-def sample_form(tex, samp):
+def sample_form(tex, samp, variant=0):
     """textureSampleLevel / CompareLevel through a sampler: touches both globals"""
     t = tex.tex
     d = t["dim"]
@@ -512,9 +524,19 @@ def sample_form(tex, samp):
     if samp.comparison:
         if t["cls"] != "depth":
             return None
+        if variant and d in ("2d", "2d_array", "cube", "cube_array"):
+            return ("gather_cmp", "textureGatherCompare(%s, %s, %s%s, 0.5).x" % (
+                tex.name, samp.name, FCOORD[d], arr), None)
         return ("sample_cmp", "textureSampleCompareLevel(%s, %s, %s%s, 0.5)" % (
             tex.name, samp.name, FCOORD[d], arr), None)
     if t["cls"] == "sampled" and t["sample"] == "f32":
+        if variant == 1 and d in ("2d", "2d_array", "cube", "cube_array"):
+            return ("gather", "textureGather(0, %s, %s, %s%s).x" % (
+                tex.name, samp.name, FCOORD[d], arr), None)
+        if variant == 2 and d in ("2d", "3d", "cube"):
+            g0 = "vec2<f32>(0.0, 0.0)" if d == "2d" else "vec3<f32>(0.0, 0.0, 0.0)"
+            return ("sample_grad", "textureSampleGrad(%s, %s, %s, %s, %s).x" % (
+                tex.name, samp.name, FCOORD[d], g0, g0), None)
         return ("sample", "textureSampleLevel(%s, %s, %s%s, 0.0).x" % (
             tex.name, samp.name, FCOORD[d], arr), None)
     if t["cls"] == "depth":
